@@ -25,8 +25,8 @@ JOBS += [
          replace=['bloom_filter_block_index', 'bloom_filter_block_check'],
          functions=['carquet_bloom_filter_check_hash'], **B),
     dict(name='c20_merge', entry='h_merge', enforce='carquet_bloom_filter_merge', min_loop_obligations=1, **B),
-    dict(name='c20_create', entry='h_create', loop_contracts=False, functions=['carquet_bloom_filter_create', 'carquet_bloom_filter_destroy'], **B),
-    dict(name='c20_from_data_write', entry='h_from_data', loop_contracts=False,
+    dict(name='c20_create', c19=True, entry='h_create', loop_contracts=False, functions=['carquet_bloom_filter_create', 'carquet_bloom_filter_destroy'], **B),
+    dict(name='c20_from_data_write', c19=True, entry='h_from_data', loop_contracts=False,
          functions=['carquet_bloom_filter_from_data', 'carquet_bloom_filter_write'], **B),
 ] + [
     dict(name='c20_typed_hash_%s' % t, entry='h_typed_hash', loop_contracts=False, defines=['CQV_WHICH=%d' % w],
